@@ -5,7 +5,14 @@
    and forward array; touching a freed one is the error state UseAfterFree / UseAfterFreeArr.
    REFUTED for the repository code at the time of writing (both containers, witnesses replayed on the real
    library under ASan: heap-use-after-free); proposed repairs in fixes/C18-*.patch.
-   PARTIAL for the repaired code: proved are (1) the witnesses no longer fail, (2) on layer A (MapRefModel.v, run
+   HASHTABLE, repaired code: C18_hashtable_memory_safe - for ALL histories (every interleaving of iterator
+   create/next/free with put/get/rm/count/foreach/notify/destroy, any number of iterators, next after the end,
+   abandoned iterators, any hash function and table size) the pointer-level model never reaches UseAfterFree,
+   OutOfBounds, RefUnderflow or OutOfFuel - no error state at all (MapHashProofs3.v, invariant GoodP: refcount = presence + parked iterators >= 1,
+   parked nodes are linked, linked nodes are live cells).
+   C18_hashtable_survivors_dictionary - after any history, once all iterators are freed, the table behaves exactly
+   like a dictionary of the surviving entries (MapHashProofs4.v).
+   Otherwise PARTIAL for the repaired code: proved are (1) the witnesses no longer fail, (2) on layer A (MapRefModel.v, run
    against the library on every check) an iterator only ever returns entries that are present, with their
    current value, and nothing after it reported the end, (3) C17's theorems, which cover traversals abandoned via
    the callback.  MISSING (checked only by the ASan / monitor / correspondence run over generated interleavings):
@@ -14,7 +21,7 @@
    iterators. *)
 From Coq Require Import ZArith List NArith Bool.
 Require Import Verif.gen.Consts_map Verif.MapSpec Verif.MapHashModel Verif.MapSkipModel Verif.MapRefModel
-  Verif.MapRefProofs Verif.MapHashProofs Verif.MapSkipProofs.
+  Verif.MapRefProofs Verif.MapHashProofs Verif.MapHashProofs2 Verif.MapHashProofs3 Verif.MapHashProofs4 Verif.MapSkipProofs.
 Import ListNotations.
 
 (* hashtable: put a; iterator parked on a; rm a; get a (still answers 1); rm a again (succeeds, frees the node);
@@ -32,6 +39,47 @@ Theorem C18_hashtable_witness_fixed :
   [ONone; ONone; ONext (Some (MapHashProofs.ka, 1%N)); OBool true; OVal 0%N; OBool false; ONext None].
 Proof. exact hash_c18_witness_fixed. Qed.
 Print Assumptions C18_hashtable_witness_fixed.
+
+(* HASHTABLE, pointer-level model, repaired code: EVERY history runs to its end without reaching any error state:
+   no freed or out-of-range cell is touched, no reference is dropped that is not held, and the qb_map_foreach loop
+   stays within the model's fuel (the remaining bucket suffix strictly shrinks at every step). *)
+Theorem C18_hashtable_memory_safe : forall hf rc m ops, snd (h_run v_fixed hf rc (h_create m) ops) = None.
+Proof. exact hash_c18_no_error. Qed.
+Print Assumptions C18_hashtable_memory_safe.
+
+(* HASHTABLE, last clause of C18: after ANY history - iterators created, stepped, abandoned, entries removed and added
+   under them - once every iterator has been freed (and the map is not destroyed) the pointer-level table is a
+   dictionary of the surviving entries again: with the specification state whose dictionary is exactly the table's
+   live (key, value) entries and whose subscriptions are the table's, every further history of put/get/rm/count/
+   foreach/notify/destroy runs in lock step with the specification (outputs and notifier calls, C17's relation) *)
+Theorem C18_hashtable_survivors_dictionary : forall hf rc m ops1 s,
+  h_state_after v_fixed hf rc (h_create m) ops1 = Ok s -> h_iters s = [] -> h_alive s = true ->
+  s_dict (spec_of (abs s)) = live_kv (abs s) /\
+  forall ops2, no_iter_ops ops2 = true -> b_lockstep hf rc s (spec_of (abs s)) ops2.
+Proof. exact hash_c18_survivors. Qed.
+Print Assumptions C18_hashtable_survivors_dictionary.
+
+(* ... because the table then satisfies the representation invariant of the dictionary refinement: no removed node is
+   left, every reference count is 1, keys are distinct, the count is the number of entries *)
+Theorem C18_hashtable_survivors_invariant : forall hf rc m ops s,
+  h_state_after v_fixed hf rc (h_create m) ops = Ok s -> h_iters s = [] -> h_alive s = true -> Good hf s.
+Proof. exact hash_survivors_good. Qed.
+Print Assumptions C18_hashtable_survivors_invariant.
+
+(* the invariant behind it, one API call from any state that satisfies it (or from a destroyed map) *)
+Theorem C18_hashtable_invariant_step : forall hf rc s o, TopInv s ->
+  exists s' x ns, h_step v_fixed hf rc s o = Ok (s', x, ns) /\ TopInv s'.
+Proof. exact hash_step_total. Qed.
+Print Assumptions C18_hashtable_invariant_step.
+
+(* non-vacuity: the state with an iterator parked on a removed entry (the situation of the refutation above) satisfies
+   the invariant in the repaired model: it is reached by a history from the empty table *)
+Example C18_hashtable_invariant_example :
+  match h_state_after v_fixed hf8 rc_consts (h_create 8%N) [Put MapHashProofs.ka 1%N; IterCreate 0 None; IterNext 0; Rm MapHashProofs.ka] with
+  | Ok s => pcount (its s) 0 = 1 /\ exists n, deref (h_heap s) 0 = Ok n /\ hn_removed n = true /\ hn_ref n = 1
+  | Err _ => False
+  end.
+Proof. exact c18_example_state. Qed.
 
 (* skiplist (a): parked on the first entry b; rm b; rm c; iter_next reads the forward array freed by the second
    takeover.  (b): parked on c; rm c; rm its predecessor b (which frees the array c shares); iter_next *)
